@@ -63,6 +63,18 @@ def gen_history(rng: random.Random, nops: typing.Optional[int] = None) -> list[d
         ops.extend({**train(), 'project': ops[0]['project']} for _ in range(rng.randint(2, 4)))
         ops.append({'op': 'prune', 'project': ops[0]['project'], 'rel': 0, 'gen': rng.randint(0, 3)})
         nops = len(ops) + rng.randint(1, 3)
+    if rng.random() < 0.15:  # swarm: two trainers of different releases in two processes, commits interleaved
+        first = ops[0]
+        first['crash'] = None
+        second = {**publish(), 'crash': None, 'version': rng.choice(VERSIONS)}
+        ops.append(second)
+        ops.append({**train(), 'op': 'begin', 'slot': 0, 'other': False, 'crash': None, 'lose': None,
+                    'project': first['project'], 'rel': 0})
+        ops.append({**train(), 'op': 'begin', 'slot': 1, 'other': True, 'crash': None, 'lose': None,
+                    'project': second['project'], 'rel': 1})
+        ops.append({'op': 'commit', 'slot': 0, 'crash': None, 'interleave': round(rng.random(), 3)})
+        ops.append({'op': 'commit', 'slot': 0, 'crash': None, 'interleave': None})
+        nops = len(ops) + rng.randint(0, 3)
     while len(ops) < nops:
         kind = rng.choices(['publish', 'train', 'restart', 'read', 'mount', 'train_unknown', 'prune', 'begin', 'commit'],
                            [3, 6, 1.5, 1, 0.7, 0.3, 0.5, 1.6, 2.2])[0]
@@ -79,7 +91,8 @@ def gen_history(rng: random.Random, nops: typing.Optional[int] = None) -> list[d
             ops.append({**train(), 'op': 'begin', 'slot': rng.randrange(3), 'other': rng.random() < 0.4, 'crash': None,
                         'lose': None})
         elif kind == 'commit':
-            ops.append({'op': 'commit', 'slot': rng.randrange(3), 'crash': crashspec()})
+            ops.append({'op': 'commit', 'slot': rng.randrange(3), 'crash': crashspec(),
+                        'interleave': round(rng.random(), 3) if rng.random() < 0.5 else None})
         elif kind == 'prune':
             ops.append({'op': 'prune', 'project': rng.choice(PROJECTS[:nproj]), 'rel': rng.randint(0, 5),
                         'gen': rng.randint(0, 5)})
@@ -479,7 +492,31 @@ class Run:
                 # the commit of k states is mkdir + k renames + create/write/replace of the tag (+ return)
                 at = spec['at'] if 'at' in spec else 1 + int(spec['frac'] * (len(slot['states']) + 5))
                 crash = {'at': at, 'cut': None}
-            res = slot['child'].call('train_commit', {'slot': key}, crash)
+            pause = None
+            rival = None
+            if not crash and op.get('interleave') is not None:
+                # another trainer (other release or project, other process) commits while this commit is parked
+                # between two of its file-system operations
+                rivals = [k for k, v in self.slots.items() if v['child'] is not slot['child'] and v['child'].alive
+                          and (v['project'], v['ver']) != (slot['project'], slot['ver'])
+                          and v['ver'] in self.model.get(v['project'], {})]
+                if rivals:
+                    rival = self.slots.pop(rivals[0])
+                    pause = {'on': 'mutation', 'at': 1 + int(op['interleave'] * (len(slot['states']) + 4))}
+            res = slot['child'].call('train_commit', {'slot': key}, crash, pause)
+            if res.status == 'paused':
+                rgens = after[rival['project']][rival['ver']]['gens']
+                rgens[max(rgens, default=0) + 1] = rival['states']
+                rres = rival['child'].call('train_commit', {'slot': rivals[0]})
+                self.stats['fault:commit-interleaved-with-another-commit'] += 1
+                if not rres.ok or rres.value != max(rgens):
+                    raise base.Violation('verdict-mismatch', f'{where}: the rival commit of {rival["project"]}/'
+                                                             f'{rival["ver"]} (run while this one was parked) gave '
+                                                             f'{rres.value}')
+                res = slot['child'].resume()
+                where += f' [interleaved with a commit of {rival["project"]}/{rival["ver"]} by another process]'
+            elif rival is not None:
+                self.slots[rivals[0]] = rival  # the pause point was not reached: the rival stays open
             self.trace.append({**op, 'crash': {**crash, 'retry': False} if crash else None})
             self.stats['op:commit'] += 1
             self.stats['overlapping-trainers'] += 1
